@@ -19,7 +19,10 @@ VERIF = Path(__file__).resolve().parent.parent
 REPO = Path(os.environ.get("VERIF_REPO", "/repo"))
 COQ = VERIF / "coq"
 BUILD = VERIF / "_build"
-EVID = VERIF / "evidence"
+# evidence describes runs against /repo itself; a run against a scratch worktree (VERIF_REPO,
+# used when seeded changes are re-checked) writes its evidence and replays under _build instead
+_SCRATCH = REPO.resolve() != Path("/repo")
+EVID = (VERIF / "_build" / "scratch_evidence") if _SCRATCH else VERIF / "evidence"
 REPLAYS = VERIF / "replays"
 CORPUS = VERIF / "corpus"
 PY = "/venv/bin/python"
